@@ -8,6 +8,7 @@ package hyper
 typeinv position by newPosition: self.numBits == uint16(len(self.Index)) * 8 && self.Height <= self.numBits && len(self.Index) < 8192
 
 typeinv QueryProof by NewQueryProof: !isnil(self.hasher)
+immutable QueryProof.AuditPath, QueryProof.Key, QueryProof.Value, QueryProof.hasher by NewQueryProof
 
 func NewQueryProof
   props C02 C12 C13
